@@ -137,5 +137,5 @@ def client_connect(database: str | None, schema: str | None, db_path: str | None
         kw["schema"] = schema
     return snowflake.connector.connect(
         user="fake", password="snow", account="fakesnow", host="localhost", port=1, protocol="http",
-        session_parameters=params, network_timeout=1, platform_detection_timeout_seconds=0, **kw,
+        session_parameters=params, network_timeout=3600, login_timeout=3600, platform_detection_timeout_seconds=0, **kw,  # no real-clock deadline may fire under load
     )
